@@ -177,7 +177,11 @@ func (Engine) Generate(prop string, r *kit.Rand, tier string) *kit.Scenario[Conf
 	}
 	if prop == "C04" {
 		for i, n := 0, r.Range(2, 12); i < n; i++ {
-			o := Op{Op: "net", Seg: r.Range(-1, maxSegs-1), Attempt: r.Weighted([]int{6, 3, 2, 1}), Act: kit.Pick(r, []string{"corrupt", "corruptdata", "corruptdata", "corruptdata"})}
+			sg := r.Range(-1, maxSegs-1)
+			if r.Chance(0.25) {
+				sg = -1 // the metadata exchange
+			}
+			o := Op{Op: "net", Seg: sg, Attempt: r.Weighted([]int{6, 3, 2, 1}), Act: kit.Pick(r, []string{"corrupt", "corruptdata", "corruptdata", "corruptdata"})}
 			if second && r.Bool() {
 				o.Obj = 1
 			}
@@ -358,7 +362,7 @@ func (e Engine) Run(t *testing.T, ctx *kit.Ctx, sc *kit.Scenario[Config, Op]) *k
 		if len(msg) > 300 {
 			msg = msg[:300]
 		}
-		res.Violation = &kit.Violation{Class: "C15/panic", Key: site, Step: -1, Detail: msg}
+		res.Violation = &kit.Violation{Class: sc.Property + "/panic", Key: site, Step: -1, Detail: msg}
 	}
 	return res
 }
@@ -799,6 +803,14 @@ func (e Engine) run(ctx *kit.Ctx, sc *kit.Scenario[Config, Op], res *kit.Result,
 						case "corrupt":
 							f = facesim.Mutate(f, fl.op.Mut, fl.op.At, fl.op.Val)
 							corrupted++
+							if !res.Ambiguous {
+								// a corrupted Interest may still be a valid one for a shorter name; which of several
+								// stored packets answers it depends on map order inside the store. Content is not
+								// judged in a C04 run
+								res.Ambiguous = true
+								ctx.Logf("interest corrupted; log ends here")
+								ctx.Log = nil
+							}
 						case "dup":
 							seq++
 							queue = append(queue, inflight{at: at + fl.delay, seq: seq, toP: true, frame: f})
